@@ -46,6 +46,37 @@ def run_contract(job):
 
 
 def _run_contract(job):
+    """One contract.  When a loop contract's roles do not match the locals of the loop (renamed variables), every
+    assignment of the unmatched locals to the unmatched roles is tried, most similar names first; an assignment is
+    accepted only if EVERY obligation of the contract is then discharged (instantiating an invariant is proof
+    search: a wrong instantiation cannot make a false obligation pass).  Otherwise the first result stands."""
+    first = _attempt(job, None)
+    ln = first.get("loop_names")
+    if not ln:
+        return first
+    import itertools, difflib
+    roles, actual = ln["unmatched_roles"], ln["unmatched_actual"]
+    if not actual or len(actual) > len(roles) or len(roles) > 5:
+        return first
+    cands = []
+    for pick in itertools.permutations(roles, len(actual)):
+        score = sum(difflib.SequenceMatcher(None, r.lower(), a.lower()).ratio() for r, a in zip(pick, actual))
+        cands.append((-score, dict(zip(pick, actual))))
+    cands.sort(key=lambda x: x[0])
+    tried = 0
+    for _, mapping in cands[:120]:
+        tried += 1
+        r = _attempt(job, {ln["loop"]: mapping})
+        bad = r.get("error") or r.get("unsupported") or any(
+            o["status"] not in ("discharged", "dead", "covered") and o["kind"] != "cover" for o in r["obligations"])
+        if not bad and r["obligations"]:
+            r["notes"] = (r.get("notes") or []) + [f"loop contract {ln['loop']}: roles matched to renamed locals {mapping} (attempt {tried})"]
+            return r
+    first["error"] = (first.get("error") or "") + f" (no assignment of the locals {actual} to the invariant's roles {roles} verifies; {tried} tried)"
+    return first
+
+
+def _attempt(job, loop_renames):
     prop, idx, repo, tier = job
     t0 = time.time()
     out = {"index": idx, "obligations": [], "error": None, "unsupported": None}
@@ -56,6 +87,7 @@ def _run_contract(job):
 
         mod = load_module(prop)
         c = mod.CONTRACTS[idx]
+        c.loop_renames = loop_renames
         out["label"] = c.label
         out["file"], out["func"], out["bounded"] = c.file, c.func, c.bounded
         I = Interp(repo)
@@ -130,6 +162,8 @@ def _run_contract(job):
     except Exception as e:
         out["error"] = f"{type(e).__name__}: {e}"
         out["trace"] = traceback.format_exc()[-4000:]
+        if getattr(e, "loop_names", None):
+            out["loop_names"] = e.loop_names
     out["seconds"] = time.time() - t0
     return out
 
@@ -147,6 +181,10 @@ def load_known():
                 continue
             known.append(json.loads(line))
     return known, fixed
+
+
+def _is_no_exception(name):
+    return name.rsplit("/", 1)[-1].startswith("no_exception[")
 
 
 def load_baseline():
@@ -260,6 +298,7 @@ def main(argv):
     known, fixed = load_known()
     known = [k for k in known if k["property"] == prop]
     baseline = load_baseline().get(prop, [])
+    baseline_contracts = {n.rsplit("/", 1)[0] for n in baseline}
 
     violations, undecided, errors, known_hits = [], [], [], []
     n_obl = n_dis = 0
@@ -347,7 +386,9 @@ def main(argv):
                 violations.append((name, o, True))
         elif st == "failed" and kf is not None:
             known_hits.append((kf, o))
-        elif st == "failed" and name in baseline:
+        elif st == "failed" and (name in baseline or (_is_no_exception(name) and rv != "spurious" and name.rsplit("/", 1)[0] in baseline_contracts)):
+            # (a contract that allows no exception held that clause on the unchanged tree by having no raising path:
+            # the clause is part of the baseline whenever the contract is, unless the replay showed the path spurious)
             violations.append((name, o, False))
         elif st == "failed" and rv == "error":
             errors.append(f"{name}: replay failed: {(o.get('replay') or {}).get('verdict')}")
